@@ -58,7 +58,7 @@ func fieldStores(a *ssa.Alloc) map[string][]ssa.Value {
 
 // C19: third-party frames survive only for allow-listed services.
 func C19(p *core.Program, r *core.Report) {
-	r.Explanation = "H1: HasRootDomain's decision structure equals `parse the URL (after http: prefixing of scheme-relative values); false unless the scheme is http or https (what follows the // of a javascript: or data: URL is no host); host == root or host ends with \".\"+root` (decision-list conformance on the SSA of the function). H2: in every function of package embed, each construction of a webdoc.Embed is unreachable once the `true` edges of its HasRootDomain tests are removed (guard-cut), i.e. an embed is only produced for a URL that passed the host test. H3: the constant root arguments are exactly the documented allow-list and are paired with the matching Type literal; the id is computed from the same URL value that was tested. H5: Embed.GenerateOutput builds the placeholder as a DOM element whose data-type/data-id attributes are the embed's Type/ID and serialises it with dom.OuterHTML (escaping by the serializer). H4: iframe/object/embed fall into converter switch clauses that return false without StartNode, so an unrecognised frame is dropped. H3 also: the value handed to the host test is the element's own address (src; data or <param name=movie> of an object; href of an anchor of a tweet). H9: the attribute allow-list of the output does not contain srcdoc. H10: no frame can come into being out of text when Apply parses the output again (C05-S4 shared). H7: on every decision path of the three extractors that stores a placeholder ID, the value is strings.TrimSpace of an element of strings.Split(parsed.Path, slash) with parsed = url.Parse(...) (fragment-aware) taken in a scan from the last segment backwards and decided non-empty (and not the keyword embed/video), or the data-tweet-id attribute of a rendered tweet decided non-empty. H8: on every path of Embed.GenerateOutput to the AppendChild of the processed clone, a loop over the clone's iframe/object/embed descendants is passed whose iterations detach every such element except the clone itself (frames nested in a tweet's blockquote are not carried into the placeholder). H6: the only wholesale copies of source elements outside tables/captions/embeds are Image/Figure elements, and what the image extractor stores there is pruned to img/source (shared with C04-V2/C05-S3), so no frame can ride along inside a picture."
+	r.Explanation = "H1: HasRootDomain's decision structure equals `parse the URL (after http: prefixing of scheme-relative values); false unless the scheme is http or https (what follows the // of a javascript: or data: URL is no host); host == root or host ends with \".\"+root` (decision-list conformance on the SSA of the function). H2: in every function of package embed, each construction of a webdoc.Embed is unreachable once the `true` edges of its HasRootDomain tests are removed (guard-cut), i.e. an embed is only produced for a URL that passed the host test. H3: the constant root arguments are exactly the documented allow-list and are paired with the matching Type literal; the id is computed from the same URL value that was tested. H5: Embed.GenerateOutput builds the placeholder as a DOM element whose data-type/data-id attributes are the embed's Type/ID and serialises it with dom.OuterHTML (escaping by the serializer). H4: iframe/object/embed fall into converter switch clauses that return false without StartNode, so an unrecognised frame is dropped. H3 also: the value handed to the host test is the element's own address (src; data or <param name=movie> of an object; href of an anchor of a tweet). H9: the attribute allow-list of the output does not contain srcdoc. H10: no frame can come into being out of text when Apply parses the output again (C05-S4 shared). H11: the address tested is resolved against the page URL the caller supplied, never against an address the page declares about itself (C06-U6 shared). H7: on every decision path of the three extractors that stores a placeholder ID, the value is strings.TrimSpace of an element of strings.Split(parsed.Path, slash) with parsed = url.Parse(...) (fragment-aware) taken in a scan from the last segment backwards and decided non-empty (and not the keyword embed/video), or the data-tweet-id attribute of a rendered tweet decided non-empty. H8: on every path of Embed.GenerateOutput to the AppendChild of the processed clone, a loop over the clone's iframe/object/embed descendants is passed whose iterations detach every such element except the clone itself (frames nested in a tweet's blockquote are not carried into the placeholder). H6: the only wholesale copies of source elements outside tables/captions/embeds are Image/Figure elements, and what the image extractor stores there is pruned to img/source (shared with C04-V2/C05-S3), so no frame can ride along inside a picture."
 	r.NotCovered = "parsing of ids/params from path and query (string-valued behaviour), net/url's own host parsing, what surrounds the placeholder (C05/C09)."
 
 	// H1
@@ -255,6 +255,10 @@ func C19(p *core.Program, r *core.Report) {
 
 	// H10: no frame can come into being out of text when Apply parses the output again (shared with C05-S4)
 	checkLiteralTextRoundTrip(p, r, "H10")
+	// H11: a relative frame address is resolved against the page URL the caller supplied and
+	// nothing else - not an address the page declares about itself (canonical link, og:url,
+	// base), which would let a page put its frames on an allow-listed host (C06-U6 shared)
+	checkExtractorGetsCallerURL(p, r, "H11")
 
 	// H9: a frame that survives (a rendered tweet inside its placeholder, a frame in a retained
 	// table) shows what its src names only if it has no srcdoc: the attribute allow-list of the
